@@ -6,6 +6,7 @@ import JaxVerif.Model.Call
 import JaxVerif.Generated.Rollback
 import JaxVerif.Lemmas.Rollback
 import JaxVerif.Lemmas.Idem
+import JaxVerif.Source.Trees
 
 namespace JV
 
@@ -109,5 +110,15 @@ example : instancecheck .baseException false none
     { dtypes := .any, shape := { pre := [.named "a" false false], var := some (.namedVar "v" true false, []) } }
     { isInst := true, dtype := "float32", shape := [3, 1, 2] } {} =
     (.T, { single := [(.plain "a", 3)], variadic := [(.plain "v", (true, [1, 2]))] }) := by decide
+
+/-- **the rollback code of PyTree checks, as written today**: `_MetaPyTree.__instancecheck__` / `_check` translated from the
+    current source on this run take the snapshot BEFORE anything can bind (flattening runs the leaf test at every node),
+    put all of it back when `_check` answers False and when anything whatever is raised, and otherwise are the model's
+    `pytreeInstancecheck` — for every value, leaf check, structure string and state. -/
+theorem C04_source_pytree_rollback (env : TEnv) (ac : Catch) (hf : FlattenKept env.leafCheck) (st : CState) :
+    runInstancecheck env Generated.instancecheckCode Generated.checkCode st =
+      some (if env.bare then (st, .T)
+            else pytreeInstancecheck (goodSkel ac) env.leafCheck env.leafAny env.S env.x st) :=
+  source_tree_instancecheck env ac hf st
 
 end JV
